@@ -6,4 +6,4 @@ D=$(mktemp -d /tmp/mutrepo.XXXXXX)
 rsync -a --exclude .git --exclude '*.pyc' --exclude __pycache__ /repo/ $D/
 ( cd $D && patch -p1 --fuzz=3 -s < $PATCH ) || { echo "PATCH DOES NOT APPLY"; rm -rf $D; exit 3; }
 ( cd /verif && VERIF_REPO=$D ./check $PROP --tier $TIER 2>&1 | tail -${LINES_OUT:-8} ); rc=${PIPESTATUS[0]}
-rm -rf $D
+rm -rf $D /verif/.work/alt-$(basename $D)
